@@ -7,6 +7,7 @@ package util
 import (
 	"encoding/hex"
 	"regexp"
+	"strings"
 )
 
 var (
@@ -20,6 +21,8 @@ var (
 		"comm":    regexp.MustCompile(`comm=[0-9A-F]+`),
 		"profile": regexp.MustCompile(`profile=[0-9A-F]+`),
 	}
+	regHexField = regexp.MustCompile(`^(name|comm|profile)=([0-9A-F]+)(?: |$)`)
+	regHexValue = regexp.MustCompile(`^(?:[0-9A-F]{2})+$`)
 )
 
 type RegexReplList []RegexRepl
@@ -52,18 +55,44 @@ func (rr RegexReplList) Replace(str string) string {
 }
 
 // DecodeHexInString decode and replace all hex value in a given string of "key=value" format.
+// DecodeHexInString decodes the hex encoded name, comm and profile fields of a log line.
+// Only whole fields are decoded (not text inside a quoted value that happens to look like
+// one), and a value whose decoded form holds a double quote is left encoded for
+// DecodeHexField, as it cannot be written between quotes.
 func DecodeHexInString(str string) string {
-	for name, re := range regHex {
-		str = re.ReplaceAllStringFunc(str, func(s string) string {
-			hexa := s[len(name)+1:]
-			bs, _ := hex.DecodeString(hexa)
-			return name + "=\"" + string(bs) + "\""
-		})
+	var res strings.Builder
+	quoted := false
+	for i := 0; i < len(str); i++ {
+		if str[i] == '"' {
+			quoted = !quoted
+		}
+		if !quoted && (i == 0 || str[i-1] == ' ') {
+			if m := regHexField.FindStringSubmatch(str[i:]); m != nil {
+				bs, err := hex.DecodeString(m[2])
+				if err == nil && !strings.Contains(string(bs), "\"") {
+					res.WriteString(m[1] + "=\"" + string(bs) + "\"")
+					i += len(m[1]) + len(m[2])
+					continue
+				}
+			}
+		}
+		res.WriteByte(str[i])
 	}
-	return str
+	return res.String()
 }
 
-// Filter out comments and empty line from a string
+// DecodeHexField decodes the value of a name, comm or profile field that is still hex encoded.
+func DecodeHexField(key string, value string) string {
+	if _, ok := regHex[key]; !ok || !regHexValue.MatchString(value) {
+		return value
+	}
+	bs, err := hex.DecodeString(value)
+	if err != nil {
+		return value
+	}
+	return string(bs)
+}
+
 func Filter(src string) string {
 	return regFilter.Replace(src)
 }
